@@ -161,20 +161,6 @@ end
 
 /-! ### Impl side -/
 
-/-- re-type the elements of a stream without touching which methods are overridden -/
-def mapOut {σ β γ : Type} (f : β → γ) (o : Ops σ β) : Ops σ γ :=
-  let sl : SliceRes σ β → SliceRes σ γ := fun
-    | .list l => .list (l.map f)
-    | .strm s => .strm s
-  { next := mapNext o.next f
-    peek := fun s => (o.peek s).map f
-    bound := o.bound
-    len := o.len
-    force := fun s => (o.force s).map (List.map f)
-    index := fun s i => (o.index s i).map f
-    slice := fun s lo hi => (o.slice s lo hi).map sl
-    reversed := fun s => (o.reversed s).map sl }
-
 def toCount (k : Int) : R Nat :=
   match toUsize k with
   | some n => .ok n
